@@ -171,6 +171,17 @@ pub fn alphabet(scheme: Scheme, init_seq: u64, own_pub: &[u8], other_pub: &[u8])
     a.push(Op::SetClientInfo("".into(), "".into(), None));
     a.push(Op::SetClientInfo("ñandú".into(), "版本".into(), Some("🚀".into())));
     a.push(Op::SetClientInfo("L".repeat(90), "v".into(), Some("b".repeat(30))));
+    // special IPv6 forms: IPv4-mapped, IPv4-compatible, unspecified, NAT64, multicast
+    let mapped: IpAddr = "::ffff:10.1.2.3".parse().unwrap();
+    a.push(Op::SetIp(mapped));
+    a.push(Op::SetUdpSocket(SocketAddr::new(mapped, 4242)));
+    a.push(Op::SetTcpSocket(SocketAddr::new("::ffff:255.255.255.255".parse().unwrap(), 80)));
+    a.push(Op::SetUdpSocket(SocketAddr::new("::".parse().unwrap(), 1)));
+    a.push(Op::SetTcpSocket(SocketAddr::new("::1.2.3.4".parse().unwrap(), 65_535)));
+    a.push(Op::SetIp("64:ff9b::c000:201".parse().unwrap()));
+    a.push(Op::SetIp("ff02::1".parse().unwrap()));
+    a.push(Op::SetIp(v4(127, 0, 0, 1)));
+    a.push(Op::SetIp(v4(255, 255, 255, 255)));
     a.push(Op::SetUdpSocket(SocketAddr::new(v4(192, 168, 0, 1), 9000)));
     a.push(Op::SetUdpSocket(SocketAddr::new(v6(7), 0)));
     a.push(Op::SetTcpSocket(SocketAddr::new(v4(255, 255, 255, 255), 65_535)));
@@ -306,6 +317,12 @@ pub fn random_op(r: &mut impl RngCore, alpha: &[Op], scheme: Scheme) -> Op {
         }
     };
     let ip = |r: &mut dyn RngCore| -> IpAddr {
+        if r.next_u32() % 4 == 0 {
+            // special forms a conversion or canonicalisation could mishandle
+            const SPECIAL: [&str; 14] = ["::ffff:1.2.3.4", "::ffff:0.0.0.0", "::ffff:255.255.255.255", "::", "::1", "::5.6.7.8", "64:ff9b::102:304",
+                "ff02::1", "fe80::1", "2002:c000:204::", "0.0.0.0", "255.255.255.255", "127.0.0.1", "224.0.0.1"];
+            return SPECIAL[(r.next_u32() % 14) as usize].parse().unwrap();
+        }
         if r.next_u32() % 2 == 0 {
             let mut a = [0u8; 4];
             r.fill_bytes(&mut a);
